@@ -127,8 +127,8 @@ pub fn record(args: &Args) {
 			_ => mutate(&mut rng, &g, &a),
 		};
 		let rec = match guarded(|| answers(&a, &b)) {
-			Ok((ab, ba, w1, w2)) => json!({"ev": "uneq", "a": project(&a), "b": project(&b), "ab": ab, "ba": ba, "wrapped": if w1 == w2 { json!(w1) } else { json!("inconsistent") }, "eq": a == b}),
-			Err(p) => json!({"ev": "uneq", "a": project(&a), "b": project(&b), "ab": "panic", "ba": p, "wrapped": false, "eq": a == b}),
+			Ok((ab, ba, w1, w2)) => json!({"ev": "uneq", "a": project(&a), "b": project(&b), "ab": ab, "ba": ba, "wrapped": w1, "routes_agree": w1 == w2, "panic": false, "eq": a == b}),
+			Err(p) => json!({"ev": "uneq", "a": project(&a), "b": project(&b), "ab": false, "ba": false, "wrapped": false, "routes_agree": false, "panic": true, "msg": p, "eq": a == b}),
 		};
 		lines.push(rec);
 	}
